@@ -422,11 +422,13 @@ pub fn run_length_decode(data: &[u8]) -> Result<Vec<u8>> {
         if length < 128 {
             let start = c + 1;
             let end = start + length as usize + 1;
+            if end > d.len() { return Err(PdfError::EOF); } // truncated literal run
             // copy _following_ length + 1 bytes literally
             buf.extend_from_slice(&d[start..end]);
             c = end; // move cursor to next run
         } else if length >= 129 {
             let copy = 257 - length as usize; // copy 2 - 128 times
+            if c + 1 >= d.len() { return Err(PdfError::EOF); } // truncated repeat run
             let b = d[c + 1]; // copied byte
             buf.extend(std::iter::repeat(b).take(copy));
             c += 2; // move cursor to next run
